@@ -27,5 +27,14 @@ CHECKS["C13"] = dict(
     note="small scope (nesting <=2, <=4 graphs, <=2-3 calls after seed); object identity of metadata containers inspected through private attributes only to compare identity",
 )
 
+ENGINES.append({"name": "journal", "path": "specs/ir/Journal.tla", "serves_properties": ["C20"],
+                "kind_free_text": "journal stack + per-call transcription of instrumented operations (JOps) over IRGraph; JournalMC.tla; harness/vfh/irjournal.py (twin replay plain vs journaled)"})
+CHECKS["C20"] = dict(
+    engine="journal", design_ref="DESIGN.md §4 C20",
+    technique="TLC model checking of JournalMC.tla + twin replay (plain vs inside real Journal contexts) of every explored (state, step)",
+    text="the specification keeps the IR state a function of the un-journaled history (Transparent), grows exactly the active journals by the instrumented operations of each call (OneEntry, transcribed per call from the wrappers) and nests journals as a stack; TLC explores enter/exit/exit-by-exception interleaved with the mutator alphabet incl. rejected calls; every state's history and every candidate step are executed twice on real objects, plainly and under real Journals, comparing outcome, full projection, appended entries per journal, the class-attribute table after every exit (function identity), and that entries do not keep IR objects alive.",
+    note="properly nested journals; nesting <= 2 (quick) / 3 (thorough); entries of raising operations tolerated (weak reading)",
+)
+
 _PENDING = "check not built yet in this round (specification planned in DESIGN.md §4); not claimed until its TLA+ model and binding exist"
-NOT_APPLICABLE = {p: _PENDING for p in ["C02", "C03", "C04", "C05", "C07", "C08", "C09", "C10", "C11", "C12", "C14", "C15", "C16", "C17", "C18", "C19", "C20"]}
+NOT_APPLICABLE = {p: _PENDING for p in ["C02", "C03", "C04", "C05", "C07", "C08", "C09", "C10", "C11", "C12", "C14", "C15", "C16", "C17", "C18", "C19"]}
